@@ -52,6 +52,7 @@ type Contract struct {
 	Inline     bool
 	Split      map[int]bool
 	NoError    []string
+	NonNil     []string
 	Trusted    bool // contract assumed, body not verified (listed as assumption)
 	NoFrame    bool
 	Bounded    string
@@ -445,6 +446,14 @@ func parseContractFile(fset *token.FileSet, f *ast.File, pkgPath string) ([]*Con
 			for _, f := range strings.Split(rest, ",") {
 				if f = strings.ReplaceAll(strings.TrimSpace(f), " ", ""); f != "" {
 					cur.NoError = append(cur.NoError, f)
+				}
+			}
+		case "nonnil":
+			// nonnil <callee text>, ...: the (first) pointer result of these calls is assumed non-nil in this function (e.g. an
+			// atomic pointer that the package's init function always sets); listed as an assumption
+			for _, f := range strings.Split(rest, ",") {
+				if f = strings.ReplaceAll(strings.TrimSpace(f), " ", ""); f != "" {
+					cur.NonNil = append(cur.NonNil, f)
 				}
 			}
 		case "noframe":
